@@ -110,6 +110,8 @@ def model_classes(mdl, ref=None, nblocks=None):
     if len({(s[1], s[2]) for s in sites}) > 1:
         c.append("heterogeneous")
     c.append("symm-" + (mdl.get("symm") or {"mode": "default"})["mode"])
+    if mdl.get("repeat"):
+        c.append("repeated-prepare-compute")
     if nblocks is not None:
         c.append("one-block" if nblocks == 1 else "multi-block")
     if ref is not None:
